@@ -806,7 +806,11 @@ class Path:
         return self._comp(node, fr, lambda f: self.ev(node.elt, f))
 
     def ev_GeneratorExp(self, node, fr):
-        return self._comp(node, fr, lambda f: self.ev(node.elt, f))
+        from . import absnodes   # absnodes
+        try:
+            return self._comp(node, fr, lambda f: self.ev(node.elt, f))
+        except absnodes.CompOverSymSet as e:
+            return e.image
 
     def ev_SetComp(self, node, fr):
         return set(self.hashable(x) for x in self._comp(node, fr, lambda f: self.ev(node.elt, f)))
@@ -825,7 +829,11 @@ class Path:
                 out.append(elt(inner))
                 return
             g = node.generators[i]
-            for item in self.iterate(self.ev(g.iter, inner)):
+            it_ = self.ev(g.iter, inner)
+            if isinstance(it_, SymSet):   # absnodes: `f(x) for x in <symbolic set>` (for any / all)
+                from . import absnodes
+                raise absnodes.CompOverSymSet(absnodes.comp_over_symset(self, node, fr, it_))
+            for item in self.iterate(it_):
                 self.assign(g.target, item, inner)
                 ok = True
                 for cnd in g.ifs:
@@ -1112,6 +1120,8 @@ class Path:
         if op is ast.BitAnd:
             return self.bitand(a_, b_)
         if op is ast.BitOr:
+            if is_boollike(a) and is_boollike(b):   # absnodes: bool | bool is the bool `or` (eager)
+                return simp(z3.Or(as_z3bool(a), as_z3bool(b)))
             return self.bitor(a_, b_)
         if op is ast.BitXor:
             raise Unsupported('symbolic xor')
@@ -2097,6 +2107,9 @@ class Path:
             self.exec_block(st.orelse, fr)
 
     def ex_While(self, st, fr):
+        from . import absnodes   # absnodes: while rule with heap havoc (invariant winv<k>)
+        if absnodes.has_while_invariant(self, st, fr):
+            return absnodes.while_rule(self, st, fr)
         if seqs.has_invariant(self, st, fr):
             return seqs.loop_rule(self, st, None, fr)
         n = 0
